@@ -40,6 +40,7 @@ def run(ctx):
     r9_degenerate_shortcuts(ctx)
     r10_apply_guards(ctx)
     write_through(ctx, "C11.R11")
+    r14_interpolation(ctx)
     r12_first_row_missing(ctx)
     r13_container_capabilities(ctx)
 
@@ -599,6 +600,20 @@ def mutable_private_containers(ctx, rule):
     ctx.floor(rule, "yields of re-bound contexts in Mutable.filter", m, 3)
 
 
+def r14_interpolation(ctx, rule="C11.R14"):
+    """iqr / median of a window that holds infinities: the percentile interpolates between two neighbours; written as a + w*(b - a) two equal infinities give inf - inf = nan
+    and the nan spreads to every value of the feature, written as (1-w)*a + w*b they give inf (scale 0)."""
+    ctx.rule(rule, "statistics.percentile never subtracts two data values from each other: the interpolation between neighbours is the convex combination (1-w)*a + w*b")
+    ST = "coba/statistics.py"
+    fn = ctx.fn(ST, "percentile")
+    P = fn.args.args[0].arg
+    subs = [b for b in ast.walk(fn) if isinstance(b, ast.BinOp) and isinstance(b.op, ast.Sub)
+            and all(isinstance(o, ast.Subscript) and isinstance(o.value, ast.Name) and o.value.id == P for o in (b.left, b.right))]
+    interp = [b for b in ast.walk(fn) if isinstance(b, ast.BinOp) and isinstance(b.op, ast.Add) and all(isinstance(o, ast.BinOp) and isinstance(o.op, ast.Mult) for o in (b.left, b.right))
+              and sum(1 for o in (b.left, b.right) for y in ast.walk(o) if isinstance(y, ast.Subscript) and isinstance(y.value, ast.Name) and y.value.id == P) == 2]
+    ctx.ob(rule, ST, "percentile", (subs or interp or [fn])[0], "neighbouring values are combined as (1-w)*a + w*b, no difference of two data values is formed", not subs and bool(interp), detail={"differences": [unparse(b) for b in subs]})
+
+
 def write_through(ctx, rule):
     """Mutable dense views over sparse storage (SparseDense: what Densify hands to Scale/Impute and to the learners' encoders):
     a write is stored for every value, and nothing the read methods derive from the storage survives a write."""
@@ -669,6 +684,7 @@ def write_through(ctx, rule):
 
 
 CONTROLS = [
+    ("percentile interpolates with a difference of neighbours", "coba/statistics.py", M.replace_expr("percentile", "(1 - w) * values[I] + w * values[I + 1]", "values[I] + w * (values[I + 1] - values[I])"), "C11.R14"),
     ("SparseDense.copy drops falsy values", "coba/pipes/rows.py", M.replace_expr("SparseDense.copy", "self._values.copy()", "{k: v for k, v in self._values.items() if v}"), "C11.R11"),
     ("SparseDense reads a stored None as 0", "coba/pipes/rows.py", M.replace_expr("SparseDense.__getitem__", "self._values.get(key, 0)", "self._values.get(key) or 0"), "C11.R11"),
     ("Mutable shallow-copies slotted rows", EF, M.replace_expr("Mutable.filter", "context.copy()", "__import__('copy').copy(context)"), "C11.R13"),
